@@ -35,6 +35,7 @@ if ! build "$EXE"; then
   exit 1
 fi
 export VERIF_BIN="$EXE"
+export VERIF_REPO_PATH="$REPO"
 if [ -n "$VERIF_RACE" ] || { [ "$TIER" = thorough ] && { [ "$ID" = C01 ] || [ "$ID" = C03 ] || [ "$ID" = C18 ]; }; }; then
   build "$EXE-race" -race && export VERIF_BIN_RACE="$EXE-race"
 fi
